@@ -40,6 +40,8 @@ FieldsExact == pc = "done" => /\ fields.dwlen = inp.dwlen /\ fields.rev = inp.re
 (* encoding a decoded value: the same field sequence, so exactly the consumed bytes *)
 EncodedLen(f, kind) == IF kind = "desc" THEN 16 + 8 + 16 + f.datalen ELSE 8 + f.datalen
 RoundTrip == pc = "done" => EncodedLen(fields, inp.kind) = pos
+(* the reader always comes to an end (design-level "never loops") *)
+Terminates == <>(pc \in {"done", "fail"})
 WellFormedInput(i) == /\ i.rev = 512 /\ i.dwlen >= (IF i.kind = "desc" THEN 24 ELSE 8) /\ (i.kind = "desc" => i.ctype = 3825)
                       /\ i.avail >= (IF i.kind = "desc" THEN 16 ELSE 0) + i.dwlen
 AcceptsWellFormed == (pc \in {"done", "fail"} /\ WellFormedInput(inp)) => pc = "done"
